@@ -23,6 +23,13 @@ CHECKS["C04"] = dict(
     ref="2/C04",
 )
 
+CHECKS["C06"] = dict(
+    technique="self-consistency monitor over update histories: snapshot of the updated instance vs snapshot of a fresh creation after every step (real runtime, real index.ts update-path trees + synthetic trees)",
+    text="Histories create(D0); update(D1); ... of length 1-6 are driven on the real runtime through setData / spliceArrayDataOnPath (natural update-path trees, default and virtualTree update modes) and through procGenWrapper.update with exact / coarsened / `true` trees; after every step the snapshot of the updated instance must equal that of a fresh creation with the same data. No reference model is involved. Held on the histories observed.",
+    note="Trusted: the snapshot (real node tree + last value written per channel at the protocol boundary), the loader. Listener closures and change-listener bookkeeping are not part of the snapshot.",
+    ref="2/C06",
+)
+
 NOT_YET = {}
 
 
